@@ -13,7 +13,7 @@ TEMPLATES = [
     "{{ a }}", "{{ a.b.c | upcase | append: d }}", "text\n\n  {{ x['y'].z }}", "{% if a.b and c %}\n{{ d | default: e.f }}{% endif %}", "{% for i in items limit: n %}{{ i.name }}{{ forloop.index }}{% endfor %}",
     "{% liquid\n  assign q = r | plus: 1\n  if q > s\n    echo t.u\n  endif\n%}", "{% capture cap %}{{ v }}{% endcapture %}{{ cap }}", "{% include 'part' %}\n{% render 'p2', pz: w %}", "{{ ['quoted'].k }}", "{{ a[b.c][0] }}",
     "é{{ uni }}é\n{% assign é = ü %}", "{% case k %}{% when l %}{{ m }}{% endcase %}", "{% unless a contains b %}{{ c }}{% endunless %}", "{%- assign   spaced   =   val   -%}{{   spaced   }}", "{% tablerow t in tt cols: cc %}{{ t }}{% endtablerow %}",
-    "{{ a | t: x: y }}" if False else "{{ a | join: b }}", "{% cycle c1, c2 %}", "{% echo e1 | append: e2 %}", "{% increment inc %}{{ inc }}",
+    "{{ a | join: b }}", "{% liquid\n  assign   q2 = r2\n\techo\t\tq2 | append:   r3\n  if  q2   ==  r4\n    echo     r5\n  endif\n%}", "a\r\n{{ crlf1 }}\r\n\r\n{% if crlf2 %}{{ crlf3 | upcase }}{% endif %}\r\n", "{% cycle c1, c2 %}", "{% echo e1 | append: e2 %}", "{% increment inc %}{{ inc }}",
 ]
 BROKEN = ["{% if %}", "{{ a | }}", "\n\n{% for %}", "{{ a b }}", "{% nosuch %}", "{% if a %}", "text {{", "{% assign = 1 %}", "{{ a[ }}", "{% liquid\n if a\n echo %}", "{{ 'x }}", "{% endif %}", "{{ a || b }}", "{% for i in (1..) %}{% endfor %}", "é\n{{ ü | }}", "{% case %}", "{{ a ! }}", "{{ a }}{% ", "{% if a = b %}{% endif %}", "x\ny\n{{ z | q: }}"]
 
@@ -23,16 +23,49 @@ def name_at(source, index, name):
     return rest.startswith(name) or re.match(r"\[\s*['\"]?" + re.escape(name), rest) is not None or re.match(r"['\"]" + re.escape(name), rest) is not None
 
 
+def ref_line_col(text, index):
+    """1-based line and 0-based column of text[index], from the definition of str.splitlines"""
+    line, start = 1, 0
+    for ln in text.splitlines(keepends=True):
+        if index < start + len(ln):
+            return line, index - start
+        line, start = line + 1, start + len(ln)
+    raise IndexError(index)
+
+
+LINE_TEXTS = ["ab\ncd\n", "ab\r\ncd\r\nef", "a\rb\r\rc", "\n\n\nx", "x", "a\u2028b\x0bc\x0cd\x1ce", "é\r\nü\n", "no newline at end\r\n\r\n"]
+
+
 def run(tier, seed):
+    import asyncio
+    from liquid.span import Span
     env = Environment(loader=DictLoader(PARTIALS))
     sources = dict(PARTIALS)
     viol = []
     cases = 0
-    for src in TEMPLATES:
+    # line/column arithmetic against the definition, every index, every kind of line terminator
+    for text in LINE_TEXTS:
+        for index in range(len(text)):
+            cases += 1
+            want = ref_line_col(text, index)
+            try:
+                got = Span("t", index).line_col(text)
+            except Exception as e:  # noqa: BLE001
+                got = repr(e)
+            if tuple(got) != want if isinstance(got, tuple) else True:
+                viol.append({"id": "line-col-wrong", "witness": f"span.line_col:{LINE_TEXTS.index(text)}", "source": repr(text), "got": f"index {index}: {got}, want {want}"})
+            try:
+                ctx = LiquidError("m", token=None)._error_context(text, index)
+                got2 = (ctx[0], ctx[1])
+            except Exception as e:  # noqa: BLE001
+                got2 = repr(e)
+            if got2 != want:
+                viol.append({"id": "line-col-wrong", "witness": f"error-context:{LINE_TEXTS.index(text)}", "source": repr(text), "got": f"index {index}: {got2}, want {want}"})
+    for src, use_async in [(s_, a_) for s_ in TEMPLATES for a_ in (False, True)]:
         t = env.from_string(src, name="main")
         srcs = dict(sources, main=src)
         try:
-            a = t.analyze()
+            a = asyncio.run(t.analyze_async()) if use_async else t.analyze()
         except LiquidError as e:
             continue
         for kind, mapping in (("variables", a.variables), ("globals", a.globals), ("locals", a.locals), ("filters", a.filters), ("tags", a.tags)):
@@ -48,6 +81,8 @@ def run(tier, seed):
                         sp.line_col(s)
                     except Exception as e:  # noqa: BLE001
                         viol.append({"id": "line-col-raises", "witness": f"{kind}:{name}", "source": src, "got": repr(e)})
+        if use_async:
+            continue
         ta = env.analyze_tags_from_string(src, name="main")
         for tname, spans in ta.all_tags.items():
             for sp in spans:
@@ -55,6 +90,7 @@ def run(tier, seed):
                 if not src[sp.index:].startswith(tname):
                     viol.append({"id": "tag-span-off", "witness": f"tag:{tname}", "source": src, "got": f"{tname} at {sp.index} -> {src[sp.index:sp.index+10]!r}"})
     combos = BROKEN + [a + b for a, b in itertools.product(BROKEN[:8] + ["ok {{ v }}\n"], BROKEN)] if tier == "thorough" else BROKEN + ["ok {{ v }}\n" + b for b in BROKEN] + [b + "\n{{ tail }}" for b in BROKEN]
+    combos = combos + [c_.replace("\n", "\r\n") for c_ in combos if "\n" in c_] + ["a\r\nb\r\n" + b for b in BROKEN]
     for src in combos:
         cases += 1
         try:
